@@ -117,7 +117,7 @@ func tickClock(g *gor) {
 
 // yieldPoint is called before every load and store.
 func yieldPoint(fr *frame, addr *value, isStore bool) {
-	if S == nil || len(S.gs) < 2 {
+	if S == nil || len(S.gs) < 2 || initDepth > 0 {
 		return
 	}
 	if !YieldEverywhere && !inFalco(fr) {
